@@ -11,12 +11,14 @@ class ChanOut:
     def __init__(self, ep, fields):
         self.ep, self.fields = ep, fields
         self.offering = None
+        self.offers = 0
 
     def handshook(self, v):
         return self.offering is not None and v[self.ep.ready]
 
     def offer(self, w, tok):
         self.offering = tok
+        self.offers += 1
         w[self.ep.valid] = 1
         for f, x in zip(self.fields, tok):
             w[getattr(self.ep, f)] = x
@@ -51,6 +53,7 @@ class AXILMaster:
         self.aw_i = self.w_i = self.b_i = self.ar_i = self.r_i = 0
         self.aw_off = self.w_off = 0          # number of AW / W ever offered
         self.log = {"aw": [], "w": [], "b": [], "ar": [], "r": []}
+        self.offered = {"aw": [], "w": [], "ar": []}      # first cycle in which each token was visible
         self.b_ready = self.r_ready = 0
 
     def signals(self):
@@ -112,6 +115,9 @@ class AXILMaster:
                 self.ar.offer(w, (self.reads[i]["addr"], self.reads[i].get("prot", self.prot)))
             else:
                 self.ar.idle(w, g)
+        for ch, co in (("aw", self.aw), ("w", self.w), ("ar", self.ar)):
+            while len(self.offered[ch]) < co.offers:
+                self.offered[ch].append(c + 1)
         self.b_ready = 1 if coop else int(self.b_sched.next())
         self.r_ready = 1 if coop else int(self.r_sched.next())
         w[b.b.ready] = self.b_ready
@@ -127,8 +133,11 @@ class AXILSlave:
     direction, answers B and R in order after a random delay. mode 'mem' = byte memory, 'tag' = R data
     from tagger(slave, addr), resp drawn at random with err_p. mute_from: stops answering (C11)."""
     def __init__(self, bus, rng, name="s", depth=4, aw_sched=None, w_sched=None, ar_sched=None, lat=(0, 3),
-                 err_p=0.0, mem=None, tagger=None, coop_from=10**9, mute_from=None, mute_kind="all", data_width=32):
+                 err_p=0.0, mem=None, tagger=None, coop_from=10**9, mute_from=None, mute_kind="all", data_width=32,
+                 accept_lat=None):
         self.bus, self.rng, self.name, self.depth = bus, rng, name, depth
+        self.accept_lat = accept_lat          # {"aw": L, "w": L, "ar": L}: ready only after valid was seen for L cycles
+        self.seen = {"aw": 0, "w": 0, "ar": 0}
         self.aw_sched, self.w_sched, self.ar_sched = aw_sched or Always(True), w_sched or Always(True), ar_sched or Always(True)
         self.lat, self.err_p = lat, err_p
         self.mem = mem if mem is not None else {}
@@ -156,6 +165,7 @@ class AXILSlave:
         b, rng = self.bus, self.rng
         coop = c >= self.coop_from
         w = {}
+        prev_ready = {"aw": self.aw_ready, "w": self.w_ready, "ar": self.ar_ready}
         if self.aw_ready and v[b.aw.valid]:
             e = (c, v[b.aw.addr], v[b.aw.prot])
             self.log["aw"].append(e)
@@ -211,6 +221,18 @@ class AXILSlave:
         self.aw_ready = int(len(self.bq) + len(self.awq) < self.depth and (coop or self.aw_sched.next()) and not self.muted(c, "aw"))
         self.w_ready = int(len(self.wq) < self.depth and (coop or self.w_sched.next()) and not self.muted(c, "w"))
         self.ar_ready = int(room_r and (coop or self.ar_sched.next()) and not self.muted(c, "ar"))
+        if self.accept_lat:
+            for ch, attr in (("aw", "aw_ready"), ("w", "w_ready"), ("ar", "ar_ready")):
+                ep = getattr(b, ch)
+                if prev_ready[ch] and v[ep.valid]:
+                    self.seen[ch] = 0                      # handshake in the cycle that ended
+                elif v[ep.valid]:
+                    self.seen[ch] += 1
+                else:
+                    self.seen[ch] = 0
+                if ch in self.accept_lat:
+                    ok_ = self.seen[ch] >= self.accept_lat[ch] and not self.muted(c, ch)
+                    setattr(self, attr, int(ok_))
         w[b.aw.ready], w[b.w.ready], w[b.ar.ready] = self.aw_ready, self.w_ready, self.ar_ready
         return w
 
